@@ -183,6 +183,20 @@ class Diff(object):
     def text(self):
         return '\n'.join(self.lines()) + '\n'
 
+    def role_lines(self):
+        """[(role, line)] with role in header / hunkheader / hunk / note."""
+        out = []
+        for s in self.sections:
+            out += [('header', l) for l in s.header_lines(self.fmt)]
+            for h in s.hunks:
+                out.append(('hunkheader', h.header()))
+                for k, t in h.lines:
+                    if k == '\\':
+                        out.append(('note', '\\ No newline at end of file'))
+                    else:
+                        out.append(('hunk', k + t))
+        return out
+
     def events(self):
         """Flat list: ('file', si) ('hunk', si, hi) ('line', kind, text, old_no, new_no)."""
         ev = []
@@ -621,3 +635,75 @@ def hostile_options(rng):
     if rng.random() < 0.3:
         o['--dark' if rng.random() < 0.5 else '--light'] = True
     return o, cls
+
+
+# ---------------------------------------------------------------- option sets (side-by-side)
+
+WRAP_SYMS = [('↵', '↴', '…'), ('>', '<', '.'), ('»', '«', '‥'), ('⏎', '↓', '~')]
+
+
+def sbs_options(rng, line_numbers=None, width=None):
+    """Random side-by-side configuration, every element tagged.  Returns (opts, meta)."""
+    syntax = rng.random() < 0.3
+    o = tagged_styles(syntax=syntax)
+    o['--paging'] = 'never'
+    o['--side-by-side'] = True
+    cls = ['sbs']
+    meta = {'syntax': syntax, 'tabs': 8, 'markers': False, 'max_line_length': 3000, 'classes': cls,
+            'file_rows': True, 'hunk_rows': 'tagged'}
+    if syntax:
+        o['--syntax-theme'] = rng.choice(THEMES_DARK + THEMES_LIGHT)
+    elif rng.random() < 0.5:
+        o['--syntax-theme'] = 'none'
+    ln = rng.random() < 0.75 if line_numbers is None else line_numbers
+    # in side-by-side mode line numbers are on by default (the feature enables them); formats may be emptied
+    lfmt, rfmt = '{nm:^4}│', '{np:^4}│'
+    r = rng.random()
+    if not ln:
+        lfmt, rfmt = '', ''
+        cls.append('no-ln')
+    elif r < 0.3:
+        lfmt, rfmt = rng.choice([('{nm:>3}┊', '{np:>3}┊'), ('[{nm:<5}]', '[{np:<5}]'), ('{nm}:', '{np}:'),
+                                 ('{nm:^6}⋮', '{np:^6}│')])
+        cls.append('ln-fmt')
+    o['--line-numbers-left-format'] = lfmt
+    o['--line-numbers-right-format'] = rfmt
+    meta['lfmt'], meta['rfmt'] = lfmt, rfmt
+    w = width or rng.choice([40, 41, 50, 61, 79, 80, 81, 100, 120, 133, 160, 200])
+    o['--width'] = w
+    meta['width'] = w
+    cls.append('w-odd' if w % 2 else 'w-even')
+    wm = rng.choice([None, 0, 1, 2, 3, 5, 'unlimited'])
+    meta['wrap_max'] = 2 if wm is None else wm
+    if wm is not None:
+        o['--wrap-max-lines'] = wm
+        cls.append('wrap%s' % wm)
+    syms = WRAP_SYMS[0]
+    if rng.random() < 0.4:
+        syms = rng.choice(WRAP_SYMS)
+        o['--wrap-left-symbol'], o['--wrap-right-symbol'], o['--wrap-right-prefix-symbol'] = syms
+        cls.append('wrapsym')
+    meta['syms'] = syms
+    if rng.random() < 0.3:
+        p = rng.choice(['1', '20', '37', '50', '80', '99'])
+        o['--wrap-right-percent'] = p
+        cls.append('wrp')
+    if rng.random() < 0.3:
+        o['--keep-plus-minus-markers'] = True
+        meta['markers'] = True
+        cls.append('markers')
+    if rng.random() < 0.4:
+        t = rng.choice([1, 2, 4, 8])
+        o['--tabs'] = t
+        meta['tabs'] = t
+        cls.append('tabs%d' % t)
+    if rng.random() < 0.3:
+        o['--line-fill-method'] = rng.choice(['ansi', 'spaces'])
+        cls.append('fill')
+    if rng.random() < 0.3:
+        o['--max-line-distance'] = rng.choice(['0', '0.3', '0.6', '1'])
+    if rng.random() < 0.3:
+        o['--line-buffer-size'] = rng.choice([0, 1, 2, 32])
+    if rng.random() < 0.3:
+        o['--dark' if rng.random() < 0.5 else '--light'] = True
+    return o, meta
